@@ -8,11 +8,13 @@
    queue is empty).  post_msg is atomic here: the theorems quantify over all SEQUENTIAL
    histories (every interleaving of atomic posts), not over thread schedules inside post_msg.
 
-   FULL STATEMENT of C18 also quantifies over real thread interleavings (non-atomic counter
-   increment, registration racing with posts): that part is NOT a theorem.  It is covered by the
-   perturbed real-thread runs of the harness (property oracle + [threads_queue_discipline]'s
-   model on the serialised queue log) and [counter_race_possible] shows why it cannot be proved
-   of the code as written. *)
+   FULL STATEMENT of C18 also quantifies over real thread interleavings.  First part of this file:
+   sequential histories, plus [threads_queue_discipline] / [counter_race_possible].  Second part
+   ("Deepening", below): a micro-step model of the threads and theorems for EVERY interleaving
+   (exactly once, priority, FIFO per sender and type, clean shutdown), with the witnesses that
+   refute them for the code before the repairs 8217f85 / a22cc0c.  What remains false of the
+   code: a registration racing with a deferring post ([mt_late_registration_refuted], finding
+   C18-registration-races-with-deferring-post). *)
 From PyDcop Require Import Base M_Messaging P_Messaging.
 From Coq Require Import Permutation Sorted.
 
